@@ -8,7 +8,7 @@
    cancellations / timeouts, OpenStream and dial results, peerstore changes. *)
 From Coq Require Import List Arith ZArith Bool.
 From Verif Require Import lib.Wire c12.Model c12.ModelHP c12.SpecSwarm c12.SpecHP c12.Spec
-  c12.Proofs_conn c12.Proofs_inv c12.Proofs_wait c12.Proofs_hp.
+  c12.Proofs_conn c12.Proofs_inv c12.Proofs_wait c12.Proofs_wake c12.Proofs_trace c12.Proofs_hp.
 Import ListNotations.
 
 (* A stream is opened (or being opened) over a limited connection only by a
@@ -80,6 +80,38 @@ Proof.
   intros cs. split; [apply limited_reported_limited_l|]. split; [apply connected_iff_direct|apply not_connected_iff_none].
 Qed.
 Print Assumptions c12_limited_reported_limited.
+
+(* No lost wake-up: in every reachable state in which a usable non-limited
+   connection exists and every addConn has finished notifying, the waiter list
+   is empty: no call can be left waiting for a direct connection that is there
+   (the check-and-register of waitForDirectConn and the append-then-notify of
+   addConn cannot interleave badly). *)
+Theorem c12_no_lost_wakeup : forall da s c, reachable da s ->
+  c < length (conns s) -> usable (get_conn (conns s) c) = true -> c_lim (get_conn (conns s) c) = false ->
+  pending s = [] -> waiters s = [].
+Proof. exact no_lost_wakeup_l. Qed.
+Print Assumptions c12_no_lost_wakeup.
+
+(* The swarm monitor that judges the implementation's traces, run on the trace
+   the model produces for ANY list of harness operations (each: one stimulus,
+   then every call runs until it blocks): its state clauses — 1 (what calls
+   returned: no stream over a limited conn without allow-limited, no relayed conn
+   from a force-direct dial), 5 (Connectedness) and 6 (no relay address dialled
+   under force-direct) — hold at every step, so the monitor can never report
+   them on a model trace.  PARTIAL: the progress clauses 2,3,4,7,8 (evaluated at
+   quiescence) are checked on the implementation's traces by the correspondence
+   only. *)
+Theorem c12_swarm_trace_state_clauses_partial : forall da ops,
+  forallb (fun ox => static_ok (snd ox)) (model_trace (init_state da) ops) = true /\
+  match monitor_run obs_init 0 (model_trace (init_state da) ops) with
+  | [_; _; k] => k <> 1%Z /\ k <> 5%Z /\ k <> 6%Z
+  | _ => True
+  end.
+Proof.
+  intros da ops. assert (R : reachable da (init_state da)) by (exists []; reflexivity).
+  split; [exact (static_trace_holds da ops _ R)|exact (monitor_never_static_clause da ops _ obs_init 0 R)].
+Qed.
+Print Assumptions c12_swarm_trace_state_clauses_partial.
 
 (* Hole punching, initiator: everything directConnect asks of the host is
    well-formed (every Connect is force-direct, a hole-punch Connect carries no
